@@ -21,6 +21,7 @@ import (
 	"bytes"
 	"context"
 	"crypto/sha256"
+	"crypto/sha512"
 	"encoding/json"
 	"fmt"
 	"os"
@@ -53,10 +54,12 @@ type verifTab struct {
 		V   string `json:"v"`
 		Len int    `json:"len"`
 	} `json:"pf"`
-	DLen      int      `json:"dlen"`
-	TKeys     []string `json:"tkeys"`
-	NVariants int      `json:"nvariants"`
-	MaxSize   int      `json:"maxsize"`
+	DLen          int      `json:"dlen"`
+	DLenBig       int      `json:"dlenbig"`
+	BigDigestFrom int      `json:"bigdigestfrom"`
+	TKeys         []string `json:"tkeys"`
+	NVariants     int      `json:"nvariants"`
+	MaxSize       int      `json:"maxsize"`
 }
 
 type verifPre struct {
@@ -120,6 +123,8 @@ type verifEvent struct {
 	Case   json.RawMessage       `json:"case"`
 	WL     map[string]verifLabel `json:"wl"`     // labels as the handler wrote them
 	TL     map[string][]int      `json:"tl"`     // labels handed to the reader (after tampering), tokens only
+	TLA    map[string][]int      `json:"tla"`    // the same map after the first read
+	Res2   verifRes              `json:"res2"`   // what a second read of that same map returns
 	Res    verifRes              `json:"res"`    // reader result
 	Head   int                   `json:"head"`   // digest id of Manifest.Layers[0] of the result (0 when rejected)
 	PfRead int                   `json:"pfread"` // prefetch id obtained the way fs.Mount parses the label (0: absent/unparsable/unknown)
@@ -149,7 +154,14 @@ type verifWorld struct {
 	pfByVal map[int64]int
 }
 
+// digest ids in [verifBigDigestFrom, 900) are sha512 digests (135 bytes), all others sha256 (71 bytes)
+var verifBigDigestFrom = 1 << 30
+
 func verifDigestOf(id int) digest.Digest {
+	if id >= verifBigDigestFrom && id < 900 {
+		h := sha512.Sum512([]byte(fmt.Sprintf("verif-c20-blob-%d", id)))
+		return digest.NewDigestFromBytes(digest.SHA512, h[:])
+	}
 	return digest.NewDigestFromBytes(digest.SHA256, sha256sum(fmt.Sprintf("verif-c20-blob-%d", id)))
 }
 
@@ -298,6 +310,20 @@ func VerifRunLabelCases(inPath, outPath string, readers map[string]GetSources) e
 	var in verifInput
 	if err := json.Unmarshal(raw, &in); err != nil {
 		return err
+	}
+	if in.Tab.BigDigestFrom > 0 {
+		verifBigDigestFrom = in.Tab.BigDigestFrom
+		if len(verifDigestOf(verifBigDigestFrom).String()) != in.Tab.DLenBig {
+			return fmt.Errorf("verif: long digest length does not match the table")
+		}
+		for v := 1; v <= 4; v++ {
+			if _, err := digest.Parse(verifCorruptDigest(verifDigestOf(verifBigDigestFrom).String(), v)); err == nil {
+				return fmt.Errorf("verif: long digest spelling %d is accepted by digest.Parse", v)
+			}
+		}
+		if _, err := digest.Parse(verifDigestOf(verifBigDigestFrom).String()); err != nil {
+			return fmt.Errorf("verif: sha512 digests are not parsable here: %v", err)
+		}
 	}
 	if in.Tab.NVariants > 4 || in.Tab.RefVariants > 7 || in.Tab.DLen != len(verifDigestOf(1).String()) {
 		return fmt.Errorf("verif: table does not match the driver: %+v", in.Tab)
@@ -483,30 +509,39 @@ func verifRunCase(tab verifTab, c verifCase, reader GetSources) (*verifEvent, er
 		}
 	}
 
-	// ---- the real reader
-	ev.Res = verifRes{URLs: []int{}, Neigh: []verifNeigh{}}
+	// ---- the real reader, twice on the SAME map (the snapshotter keeps the map and resolves from it again)
+	ev.Res, ev.Head, ev.Err = w.read(reader, lbl)
+	ev.TLA = map[string][]int{}
+	for k, v := range lbl {
+		ev.TLA[k] = w.project(v)
+	}
+	ev.Res2, _, _ = w.read(reader, lbl)
+	return ev, nil
+}
+
+func (w *verifWorld) read(reader GetSources, lbl map[string]string) (res verifRes, head int, errs string) {
+	res = verifRes{URLs: []int{}, Neigh: []verifNeigh{}}
 	srcs, err := reader(lbl)
 	if err != nil {
-		ev.Err = err.Error()
-		return ev, nil
+		return res, 0, err.Error()
 	}
 	if len(srcs) != 1 {
-		return nil, fmt.Errorf("reader returned %d sources", len(srcs))
+		return res, 0, fmt.Sprintf("verif: reader returned %d sources", len(srcs))
 	}
 	s := srcs[0]
-	ev.Res.OK = true
+	res.OK = true
 	if id, ok := w.tok2id[s.Name.String()]; ok {
-		ev.Res.Ref = id
+		res.Ref = id
 	} else {
-		ev.Res.Ref = verifUnknown
+		res.Ref = verifUnknown
 	}
-	ev.Res.Digest = w.digestID(s.Target.Digest)
-	ev.Res.URLs = w.projectURLs(s.Target.URLs)
+	res.Digest = w.digestID(s.Target.Digest)
+	res.URLs = w.projectURLs(s.Target.URLs)
 	if len(s.Manifest.Layers) > 0 {
-		ev.Head = w.digestID(s.Manifest.Layers[0].Digest)
+		head = w.digestID(s.Manifest.Layers[0].Digest)
 		for _, n := range s.Manifest.Layers[1:] {
-			ev.Res.Neigh = append(ev.Res.Neigh, verifNeigh{D: w.digestID(n.Digest), URLs: w.projectURLs(n.URLs)})
+			res.Neigh = append(res.Neigh, verifNeigh{D: w.digestID(n.Digest), URLs: w.projectURLs(n.URLs)})
 		}
 	}
-	return ev, nil
+	return res, head, ""
 }
